@@ -473,6 +473,18 @@ CASES.append({'id': 'r2-coin-shared', 'props': ['C06', 'C16'], 'kind': 'mutant',
     (PU, "    log2prob = 0.\n    for k in range(L): # for each observable gs_obs[k]\n        update = False", "    log2prob = 0.\n    bit = numpy.random.randint(2)\n    for k in range(L): # for each observable gs_obs[k]\n        update = False", 'stabilizer_measure'),
     (PU, "            ps_stb[p] = 2 * numpy.random.randint(2)\n", "            ps_stb[p] = 2 * bit\n", 'stabilizer_measure')]})
 
+# ------------------------------------------------------------------ round 3: rules decided by execution
+_BR_OLD = "    dt0 = ints.dtype\n    dt1 = numpy.dtype((dt0, [('bytes','u1',dt0.itemsize)]))\n    bins = numpy.unpackbits(ints.view(dtype=dt1)['bytes'], axis=-1, bitorder='little')\n    return numpy.flip(bins, axis=-1)[...,-width:]"
+B('r3-benign-binary-repr-shift-mask', ['C19', 'C12'], PU, _BR_OLD, "    return (ints[..., numpy.newaxis] >> numpy.arange(width)[::-1]) & 1")
+M('r3-binary-repr-shift-ascending', ['C19', 'C12'], PU, _BR_OLD, "    return (ints[..., numpy.newaxis] >> numpy.arange(width)) & 1", ['R12.bits'])
+M('r3-binary-repr-big-no-flip', ['C19'], PU, "axis=-1, bitorder='little')\n    return numpy.flip(bins, axis=-1)[...,-width:]", "axis=-1)\n    return bins[...,-width:]", ['R12.bits'])
+B('r3-benign-condense-vector', ['C02', 'C18'], PU, "    mask = numpy.zeros(N, dtype=numpy.bool_)\n    for i in range(N):\n        if g[2*i] != 0 or g[2*i+1] != 0:\n            mask[i] = True\n", "    mask = (g[0::2] | g[1::2]) != 0\n")
+M('r3-condense-xor', ['C02', 'C18'], PU, "    mask = numpy.zeros(N, dtype=numpy.bool_)\n    for i in range(N):\n        if g[2*i] != 0 or g[2*i+1] != 0:\n            mask[i] = True\n", "    mask = (g[0::2] ^ g[1::2]) != 0\n", ['R12.support'])
+B('r3-benign-indep-isdisjoint', ['C09'], PC, "        return len(set(self.qubits) & set(other_gate.qubits))==0", "        mine = set(self.qubits)\n        for q in other_gate.qubits:\n            if q in mine:\n                return False\n        return True")
+M('r3-indep-endpoint-shortcut', ['C09'], PC, "        return len(set(self.qubits) & set(other_gate.qubits))==0", "        if max(self.qubits) < other_gate.qubits[0]:\n            return True\n        return len(set(self.qubits) & set(other_gate.qubits))==0", ['R11.indep'])
+B('r3-benign-reset-both-maps-in-take', ['C10'], PC, "        if max(gate.qubits)>=self.N:\n            raise ValueError(\"The gate acting on unregistered qubits!\")\n        if self.last_layer.independent_from(gate): # if last layer commute with the new gate",
+  "        if max(gate.qubits)>=self.N:\n            raise ValueError(\"The gate acting on unregistered qubits!\")\n        self.forward_map = None\n        self.backward_map = None\n        if self.last_layer.independent_from(gate): # if last layer commute with the new gate")
+
 # ------------------------------------------------------------------ R19 mixed-library dataflow (torch port)
 M('r19-embed-tensor-mask', ['C03', 'C09', 'C10', 'C13', 'C18'], TS, '        mask2 = numpy.repeat(numpy.array(mask), 2)', '        mask2 = numpy.repeat(mask, 2)', ['R19'])
 M('r19-gate-tensor-qubits', ['C13', 'C18', 'C09'], TC, '    qubits_cond = qubits_cond.tolist() # plain integer qubit indices\n', '', ['R19'])
